@@ -13,6 +13,7 @@ import (
 	"strings"
 
 	"verif.local/sim/simcheck"
+	"verif.local/sim/simrt"
 )
 
 // ---------------------------------------------------------------- C13
@@ -123,7 +124,17 @@ func runHistory(c *simcheck.Ctx, sc *histScenario, prefix string, skip func(i in
 		if ioErrOps && op.Op == "build" && op.N > 0 {
 			pc.IOErrAt = map[int]int{op.N: op.N}
 		}
+		pc.CrashAt = op.CrashAt
 		res := h.build(i, op, pc, nil)
+		if res.Sim.Crashed {
+			c.St.Count("interrupted_builds", 1)
+			if ents, err := os.ReadDir(filepath.Join(h.w.root, ".dawn", "build", "temp")); err == nil && len(ents) > 0 {
+				c.St.Probes["temporaries_left_by_interrupted_build"]++
+			}
+			first = false
+			starts[i] = nil
+			continue
+		}
 		if v := procFailure(res); v != nil {
 			if v.Class == simcheck.EngineError {
 				return nil, nil, v, false
@@ -252,7 +263,11 @@ func c13Exec(scAny any, c *simcheck.Ctx) *simcheck.Violation {
 	for i := range twin.Ops {
 		twin.Ops[i].DryNil = false
 	}
+	// the twin replays exactly the choices the first run consumed, operation by operation
+	saved := c.Tapes
+	c.Tapes = simrt.NewTapeSet(saved.Seed, saved.Snapshot())
 	without, outsB, v, okB := runHistory(c, twin, "", func(i int, op *opSpec) bool { return op.Op == "build" && op.Dry }, nil)
+	c.Tapes = saved
 	if v != nil || !okB {
 		return v
 	}
@@ -330,6 +345,7 @@ func c14Gen(r *rand.Rand, tier string) any {
 	n := 4 + r.IntN(6)
 	sc.Ops = append(sc.Ops, opSpec{Op: "build", Label: pickLabel(r, shadow)})
 	removed := 0
+	seenGC := false
 	for i := 0; i < n; i++ {
 		switch k := r.IntN(12); {
 		case k < 3:
@@ -371,10 +387,16 @@ func c14Gen(r *rand.Rand, tier string) any {
 			shadow.applySpecEdit2(&op)
 			sc.Ops = append(sc.Ops, op)
 		case k < 9:
+			seenGC = true
 			sc.Ops = append(sc.Ops, opSpec{Op: "gc", Index: r.IntN(2) == 0}) // `dawn gc` loads from the index when it can
 		default:
 			op := opSpec{Op: "build", Label: pickLabel(r, shadow)}
-			if r.IntN(6) == 0 {
+			if r.IntN(4) == 0 && !seenGC {
+				// an interrupted build leaves temporaries behind. Only before the first
+				// collection: a crash is placed by step count, and the two twin histories take
+				// the same steps only while they have done the same things
+				op.CrashAt = 1 + r.IntN(600)
+			} else if r.IntN(6) == 0 {
 				for _, t := range shadow.closure(op.Label) {
 					if r.IntN(3) == 0 {
 						op.Fail = append(op.Fail, t.label())
@@ -441,6 +463,27 @@ func recordFiles(root string) map[string][]byte {
 
 // liveRecordNames: the record files a from-scratch load + build of every label of the
 // current tree creates (the harness does not mirror dawn's path scheme).
+// freshLoadRecords: what a load alone (no build) writes for every record, in a copy of the
+// tree without build state. A record with exactly these bytes holds nothing a load would not
+// recreate.
+func (h *histRun) freshLoadRecords(tag string) map[string][]byte {
+	w2, cleanup, err := newWorld(h.w.ctx)
+	if err != nil {
+		return nil
+	}
+	defer cleanup()
+	if err := copyTree(h.w.root, w2.root, func(rel string) bool { return rel == ".dawn" }); err != nil {
+		return nil
+	}
+	w2.bodies = h.p.bodySpecs(w2.root)
+	res := w2.process(fmt.Sprintf("%sfresh-%s", h.prefix, tag), h.pc, buildOpts{LoadOnly: true, Args: h.p.args()}, nil)
+	h.w.ctx.Sim(res.Sim, simcheck.ScenarioHash(h.p), h.pc.Strategy)
+	if res.Sim.Failure != nil || res.LoadErr != nil {
+		return nil
+	}
+	return recordFiles(w2.root)
+}
+
 func (h *histRun) liveRecordNames(tag string) (map[string]bool, *simcheck.Violation) {
 	w2, cleanup, err := newWorld(h.w.ctx)
 	if err != nil {
@@ -512,6 +555,15 @@ func c14Exec(scAny any, c *simcheck.Ctx) *simcheck.Violation {
 				continue
 			}
 			a, ok := after[n]
+			if !ok && op.Index {
+				// a collection that loaded the project from its index does not know a target
+				// added since the last completed full load; dropping the record a load wrote for
+				// it (and would write again, byte for byte) loses nothing
+				if fresh := h.freshLoadRecords(fmt.Sprint("t", gcSerial)); fresh != nil && bytes.Equal(fresh[n], b) {
+					c.St.Count("index_gc_dropped_load_only_record", 1)
+					continue
+				}
+			}
 			if !ok {
 				return simcheck.V("gc-removed-live-record", "garbage collection removed the record %s of a target or source that exists", n)
 			}
@@ -529,6 +581,15 @@ func c14Exec(scAny any, c *simcheck.Ctx) *simcheck.Violation {
 		c.St.Count("collections_fully_checked", 1)
 		return nil
 	}
+	gcSeen := false
+	for i := range sc.Ops {
+		if sc.Ops[i].Op == "gc" {
+			gcSeen = true
+		}
+		if gcSeen && sc.Ops[i].CrashAt > 0 {
+			return nil // not a twin-comparable history (see c14Gen)
+		}
+	}
 	withGC, outsA, v, okA := runHistory(c, sc, "", nil, each)
 	if v != nil {
 		return v
@@ -537,7 +598,10 @@ func c14Exec(scAny any, c *simcheck.Ctx) *simcheck.Violation {
 	if !okA {
 		return nil
 	}
+	saved := c.Tapes
+	c.Tapes = simrt.NewTapeSet(saved.Seed, saved.Snapshot())
 	without, outsB, v, okB := runHistory(c, sc, "", func(i int, op *opSpec) bool { return op.Op == "gc" }, nil)
+	c.Tapes = saved
 	if v != nil || !okB {
 		return v
 	}
